@@ -393,7 +393,7 @@ pub fn run(args: Args) {
     run.assume("in forwarding mode a chain is 'obtainable' only if, from the first upstream link on, all links are upstream (the forwarder cannot see local data)");
     let hub = TraceHub::new(&args, THREADS);
     hub.start_hang_monitor(Duration::from_secs(120));
-    let n = args.size(400_000, 15_000_000);
+    let n = args.size(2_400_000, 60_000_000);
     let seed = args.seed;
     run.parallel(THREADS, STACK, |ti, sh| {
         freeze_cache_clock();
